@@ -109,6 +109,30 @@ PROPS = {
     },
 }
 
+PROPS["C16"] = {
+    "rule": "single real client <-> real server on an otherwise clean FIFO path (all query types/codecs, lazy and immediate, Base32 upstream forced by a case-changing relay in about half the runs); the only fault kind is "
+            "re-delivery of the client's ping/data queries 1 us .. 3 s later: verbatim, with a new DNS id, with re-cased letters (Base32 upstream only), or from another source address; copies outside the window the statement "
+            "quantifies over (more than 12 data / 26 ping queries received since the original was processed) are suppressed by the harness. Oracles: (1) both tun streams stay exactly-once and in order (the C02(a) oracle); "
+            "(2) a server step that processed only a re-delivery leaves inpacket/outpacket len, offset, seqno, fragment and queue fill unchanged; (3) an identical repeat of a query whose answer is among the model's last 4 "
+            "gets the same payload; any other repeat of an answered query gets only the 1-byte marker, a refusal or silence; (4) from a foreign address with source checking: BADIP only. "
+            "non-trivial = handshake completed and >=1 re-delivery processed; distinct = distinct run fingerprints",
+    "jobs": [
+        {"scen": "tunnel", "sets": {"mode": "redeliver"}, "quick": 3000, "thorough": 150000},
+    ],
+    "expect_probes": ["c16.redelivered", "c16.repeat_of_answered", "c16.repeat_of_pending", "c16.recased", "c16.newid", "c16.altsrc", "c16.cache_hit_same_payload", "c16.marker", "c16.foreign_refused"],
+}
+PROPS["C15"] = {
+    "rule": "wire-only oracle on every data answer of the real server: payload after the 2-byte header <= fragment size in force for that session (100 until the server echoes an accepted N), N below 2 never accepted, fragments of a downstream "
+            "packet numbered 0,1,2,.. (a re-send repeats the number and starts at the same offset), last-fragment flag exactly where the zlib stream of the packet ends; run over faulty tunnel sessions (real client, -m 2..1200 or autoprobe, "
+            "answers lost/duplicated so fragments are re-sent), re-delivery sessions (cache replays) and the sessions scenario (model clients with and without N, F 2..65535, server MTU up to 8000). "
+            "non-trivial = >=1 multi-fragment downstream packet observed; distinct = distinct run fingerprints",
+    "jobs": [
+        {"scen": "tunnel", "sets": {"mode": "faulty"}, "quick": 1500, "thorough": 60000},
+        {"scen": "sessions", "sets": {"focus": "fragsize"}, "quick": 1500, "thorough": 80000},
+    ],
+    "expect_probes": ["c15.data_answers", "c15.multifrag", "c15.resends", "c15.n_accepted", "c15.data_before_n", "c15.n_huge", "c15.n_tiny"],
+}
+
 LEVEL_TEXT = {
     "C03": "Exploration: seeded adversarial histories against the real server in virtual time, judged by an independent authorisation model and by users[] snapshots around every processed datagram.",
     "C04": "Exploration: seeded multi-session histories with spoofers and expiry/reuse timing, judged by a wire-level model of slot ownership and a reference downstream reassembler.",
@@ -131,10 +155,10 @@ NOT_APPLICABLE = {
 
 # properties whose check is not registered (yet); kept current so MANIFEST.not_applicable covers every unclaimed id
 NOT_CLAIMED = {
+    "C15": "under construction",
+    "C16": "under construction",
     "C08": "check under construction in this session; not claimed until it is sound",
     "C09": "check under construction in this session; not claimed until it is sound",
     "C11": "check under construction in this session (relay family); not claimed until it is sound",
-    "C15": "check under construction in this session; not claimed until it is sound",
-    "C16": "check under construction in this session; not claimed until it is sound",
     "C20": "check under construction in this session (forwarding scenario); not claimed until it is sound",
 }
